@@ -36,6 +36,8 @@ pub fn journal(ctx: &GCtx, prop: &str, rec: &RefCell<Recorder>, case: &serde_jso
         (r.evaluations, r.distinct_nontrivial())
     };
     let body = serde_json::json!({"index": ctx.counter.get(), "evaluations": ev, "distinct_nontrivial": nt, "case": case});
+    // the journaled case is also the one the runaway guard attributes a spinning decoder to
+    vrt::total::guard_case(String::new);
     // one open handle per journal: rewriting in place is several times cheaper than re-creating
     thread_local! {
         static OPEN: RefCell<Option<(std::path::PathBuf, std::fs::File)>> = RefCell::new(None);
@@ -122,6 +124,15 @@ pub fn main(table: Vec<Entry>) -> i32 {
     }
     let ctx = GCtx { tier, seed, findings: Findings::load(), corpus: thrift_corpus(seed, tier), table: map, replay, skip: std::env::var("VERIF_SKIP").ok().and_then(|s| s.parse().ok()).unwrap_or(0), counter: std::cell::Cell::new(0) };
     vcore::evidence::quiet_panics();
+    // a generated decoder that iterates over an unchecked count never returns; the volume of its
+    // allocations ends the process, and the orchestrator attributes the death to the journaled case
+    fn runaway(_case: &str, used: usize) {
+        eprintln!("runaway: {} allocations during one case without the call returning", used);
+        std::process::abort();
+    }
+    if ctx.replay.is_none() {
+        vrt::total::arm_runaway_guard(20_000_000, runaway);
+    }
     if let Some(k) = side {
         if id == "C09" && k == "deep-chain" {
             return more::c09_deep_child(&ctx);
